@@ -85,7 +85,7 @@ def print_assumptions(prop, work):
     if rc == 0:
         blocks = re.split(r'(?=Closed under the global context|Axioms:)', out)
         blocks = [b.strip() for b in blocks if b.strip()]
-        printed = re.findall(r'Print Assumptions\s+(\w+)', text)
+        printed = [x.split('.')[-1] for x in re.findall(r'Print Assumptions\s+([\w.]+?)\.(?:\s|$)', text)]
         for name, b in zip(printed, blocks):
             res[name] = ' '.join(b.split())
     return theorems, res, rc, out
